@@ -393,6 +393,11 @@ func (zns *ZnPMServer) StartWorker() error {
 		// set busy state
 		zns.writeProcState(pipeWriter, WORKER_STATE_BUSY)
 
+		// the execution timeout covers the request from the moment it is accepted: a client
+		// that never finishes sending the request head must not keep this worker busy for ever
+		// (the read fails at the deadline, the worker ends and is replaced by the master)
+		conn.SetReadDeadline(time.Now().Add(time.Duration(timeout) * time.Second))
+
 		// Wrap the connection in a bufio.Reader to read the HTTP request
 		bufReader := bufio.NewReader(conn)
 		req, err := http.ReadRequest(bufReader)
